@@ -1,3 +1,272 @@
-// unit claim: harnesses for sdk/src/claim.rs (included by the cfg(kani) hook at the end of that file)
+// unit claim: sdk/src/claim.rs (included by the cfg(kani) hook at the end of that file)
+// C01 end-to-end stand-in (Engine B) for the part of the binding that lives in Claim::verify_hash_binding (350 lines,
+// outside both verifiers): sign an asset with the SDK, apply every mutation of a stated family to bytes that the signed
+// hard binding does NOT declare excluded, read it back: the reader must fail or report Invalid - never Valid / Trusted.
 #[allow(unused_imports)]
 use super::*;
+
+#[cfg(test)]
+mod c01 {
+    use std::io::Cursor;
+
+    use crate::{utils::test::{fixture_path, test_context}, Builder, BuilderIntent, DigitalSourceType, Reader, ValidationState};
+
+    fn sign(bytes: &[u8], mime: &str, settings: Option<&str>) -> crate::Result<Vec<u8>> {
+        let mut ctx = test_context();
+        if let Some(s) = settings {
+            ctx = ctx.with_settings(s)?;
+        }
+        let shared = ctx.into_shared();
+        let mut b = Builder::from_shared_context(&shared).with_definition(r#"{"title":"t","assertions":[]}"#)?;
+        b.set_intent(BuilderIntent::Create(DigitalSourceType::Empty));
+        let mut src = Cursor::new(bytes.to_vec());
+        let mut dst = Cursor::new(Vec::new());
+        b.save_to_stream(mime, &mut src, &mut dst)?;
+        Ok(dst.into_inner())
+    }
+
+    // Ok(state, json) or Err
+    fn read(bytes: &[u8], mime: &str) -> Result<(ValidationState, String), String> {
+        match Reader::from_context(test_context()).with_stream(mime, Cursor::new(bytes.to_vec())) {
+            Ok(r) => Ok((r.validation_state(), r.json())),
+            Err(e) => Err(e.to_string()),
+        }
+    }
+
+    // the exclusions the signed data-hash assertion declares (empty for a box hash)
+    fn exclusions(json: &str) -> Vec<(usize, usize)> {
+        fn walk(v: &serde_json::Value, out: &mut Vec<(usize, usize)>) {
+            match v {
+                serde_json::Value::Object(m) => {
+                    if let Some(serde_json::Value::Array(a)) = m.get("exclusions") {
+                        for e in a {
+                            if let (Some(s), Some(l)) = (e.get("start").and_then(|x| x.as_u64()), e.get("length").and_then(|x| x.as_u64())) {
+                                out.push((s as usize, l as usize));
+                            }
+                        }
+                    }
+                    for (_, x) in m {
+                        walk(x, out);
+                    }
+                }
+                serde_json::Value::Array(a) => {
+                    for x in a {
+                        walk(x, out);
+                    }
+                }
+                _ => {}
+            }
+        }
+        let mut out = Vec::new();
+        if let Ok(v) = serde_json::from_str::<serde_json::Value>(json) {
+            walk(&v, &mut out);
+        }
+        out
+    }
+
+    // JPEG header segments before SOS: (offset, total length, marker)
+    fn jpeg_segments(j: &[u8]) -> Vec<(usize, usize, u8)> {
+        let mut out = Vec::new();
+        let mut pos = 2;
+        while pos + 4 <= j.len() && j[pos] == 0xff {
+            let m = j[pos + 1];
+            if m == 0xda {
+                break;
+            }
+            let len = u16::from_be_bytes([j[pos + 2], j[pos + 3]]) as usize + 2;
+            out.push((pos, len, m));
+            pos += len;
+        }
+        out
+    }
+
+    // PNG chunks: (offset, total length, type)
+    fn png_chunks(p: &[u8]) -> Vec<(usize, usize, [u8; 4])> {
+        let mut out = Vec::new();
+        let mut pos = 8;
+        while pos + 12 <= p.len() {
+            let len = u32::from_be_bytes([p[pos], p[pos + 1], p[pos + 2], p[pos + 3]]) as usize + 12;
+            out.push((pos, len, [p[pos + 4], p[pos + 5], p[pos + 6], p[pos + 7]]));
+            pos += len;
+        }
+        out
+    }
+
+    struct Run {
+        evals: usize,
+        nontrivial: usize,
+        counts: std::collections::BTreeMap<String, usize>,
+    }
+
+    impl Run {
+        fn expect_detected(&mut self, class: &str, what: String, mutated: &[u8], mime: &str) {
+            self.evals += 1;
+            self.nontrivial += 1;
+            if let Ok((state, _)) = read(mutated, mime) {
+                if state != ValidationState::Invalid {
+                    let k = format!("tamper.{class}");
+                    let c = self.counts.entry(k.clone()).or_insert(0);
+                    *c += 1;
+                    if *c <= 3 || std::env::var("VERIF_B_ALL").is_ok() {
+                        println!("VERIF-B-VIOLATION key={k} input={what} -> reader reports {state:?}");
+                    }
+                }
+            }
+        }
+    }
+
+    fn inside(ex: &[(usize, usize)], p: usize) -> bool {
+        ex.iter().any(|(s, l)| p >= *s && p < s + l)
+    }
+
+    // the family of mutations common to every format: flips on a grid (all early bytes), appends, truncations
+    fn common_mutations(run: &mut Run, tag: &str, signed: &[u8], mime: &str, ex: &[(usize, usize)], c2pa: (usize, usize)) {
+        let n = signed.len();
+        let stride = (n / 60).max(1);
+        let mut positions: Vec<usize> = (0..64.min(n)).collect();
+        positions.extend((64..n).step_by(stride));
+        positions.extend([c2pa.0.saturating_sub(1), c2pa.1, c2pa.1 + 1, n - 1, n - 2]);
+        for p in positions {
+            if p >= n || inside(ex, p) || (p >= c2pa.0 && p < c2pa.1) {
+                continue; // bytes the signed binding itself excludes / the manifest store (C02)
+            }
+            for mask in [0x01u8, 0x80] {
+                let mut m = signed.to_vec();
+                m[p] ^= mask;
+                run.expect_detected(&format!("{tag}.byte_flip_accepted"), format!("{tag}: flip bit {mask:#x} of byte {p} of {n}"), &m, mime);
+            }
+        }
+        for k in [1usize, 16, 37] {
+            let mut m = signed.to_vec();
+            m.extend(std::iter::repeat(0x5au8).take(k));
+            run.expect_detected(&format!("{tag}.append_accepted"), format!("{tag}: append {k} bytes"), &m, mime);
+            if n > k + c2pa.1 {
+                run.expect_detected(&format!("{tag}.truncation_accepted"), format!("{tag}: truncate {k} bytes"), &signed[..n - k], mime);
+            }
+        }
+    }
+
+    fn jpeg_mutations(run: &mut Run, tag: &str, signed: &[u8], ex: &[(usize, usize)]) {
+        let segs = jpeg_segments(signed);
+        // the C2PA container: consecutive APP11 'JP' segments
+        let c2pa_segs: Vec<&(usize, usize, u8)> = segs.iter().filter(|(o, l, m)| *m == 0xeb && *l > 20 && &signed[o + 4..o + 6] == b"JP").collect();
+        let (c0, c1) = match (c2pa_segs.first(), c2pa_segs.last()) {
+            (Some(a), Some(b)) => (a.0, b.0 + b.1),
+            _ => (0, 0),
+        };
+        common_mutations(run, tag, signed, "image/jpeg", ex, (c0, c1));
+        if c2pa_segs.is_empty() {
+            return;
+        }
+        let first = c2pa_segs[0];
+        let en = [signed[first.0 + 6], signed[first.0 + 7]];
+        let lbox_tbox: Vec<u8> = signed[first.0 + 12..first.0 + 20].to_vec();
+        // insertions at every structural boundary that is not inside the container
+        let mut boundaries: Vec<usize> = segs.iter().map(|(o, _, _)| *o).collect();
+        if let Some((o, l, _)) = segs.last() {
+            boundaries.push(o + l);
+        }
+        for q in boundaries {
+            if q > c0 && q < c1 {
+                continue;
+            }
+            // (a) a foreign APP1 segment
+            let mut seg = vec![0xff, 0xe1, 0x00, 0x12];
+            seg.extend_from_slice(b"unsigned-content");
+            let mut m = signed[..q].to_vec();
+            m.extend_from_slice(&seg);
+            m.extend_from_slice(&signed[q..]);
+            run.expect_detected(&format!("{tag}.inserted_segment_accepted"), format!("{tag}: APP1 segment of {} bytes inserted at {q}", seg.len()), &m, "image/jpeg");
+            // (b) an APP11 'JP' segment that claims to belong to the manifest store (same En) with a stale / fresh sequence number
+            for z in [1u32, c2pa_segs.len() as u32 + 1, 0] {
+                let mut contents = Vec::new();
+                contents.extend_from_slice(b"JP");
+                contents.extend_from_slice(&en);
+                contents.extend_from_slice(&z.to_be_bytes());
+                contents.extend_from_slice(&lbox_tbox);
+                contents.extend(std::iter::repeat(0x42u8).take(200));
+                let mut seg = vec![0xff, 0xeb];
+                seg.extend_from_slice(&((contents.len() + 2) as u16).to_be_bytes());
+                seg.extend_from_slice(&contents);
+                let mut m = signed[..q].to_vec();
+                m.extend_from_slice(&seg);
+                m.extend_from_slice(&signed[q..]);
+                let class = if q == c1 { "c2pa_like_segment_directly_after_store_accepted" } else { "inserted_c2pa_like_segment_accepted" };
+                run.expect_detected(&format!("{tag}.{class}"), format!("{tag}: APP11 JP segment (En of the store, Z={z}, {} bytes) inserted at {q} (store is {c0}..{c1})", seg.len()), &m, "image/jpeg");
+            }
+        }
+        // deletion of every non-C2PA header segment
+        for (o, l, mk) in &segs {
+            if *o >= c0 && *o < c1 {
+                continue;
+            }
+            let mut m = signed[..*o].to_vec();
+            m.extend_from_slice(&signed[o + l..]);
+            run.expect_detected(&format!("{tag}.deleted_segment_accepted"), format!("{tag}: segment {mk:#x} at {o} (+{l}) deleted"), &m, "image/jpeg");
+        }
+    }
+
+    fn png_mutations(run: &mut Run, tag: &str, signed: &[u8], ex: &[(usize, usize)]) {
+        let chunks = png_chunks(signed);
+        let c = chunks.iter().find(|(_, _, t)| t == b"caBX").map(|(o, l, _)| (*o, o + l)).unwrap_or((0, 0));
+        common_mutations(run, tag, signed, "image/png", ex, c);
+        for (o, _, _) in &chunks {
+            if *o > c.0 && *o < c.1 {
+                continue;
+            }
+            let mut ch = vec![0, 0, 0, 4];
+            ch.extend_from_slice(b"teXt");
+            ch.extend_from_slice(b"evil");
+            ch.extend_from_slice(&[0, 0, 0, 0]);
+            let mut m = signed[..*o].to_vec();
+            m.extend_from_slice(&ch);
+            m.extend_from_slice(&signed[*o..]);
+            run.expect_detected(&format!("{tag}.inserted_chunk_accepted"), format!("{tag}: ancillary chunk inserted at {o}"), &m, "image/png");
+        }
+    }
+
+    #[test]
+    fn c01_tamper_signed_assets_end_to_end() {
+        let mut run = Run { evals: 0, nontrivial: 0, counts: std::collections::BTreeMap::new() };
+        let compress = r#"{"core": {"prefer_compress_manifests": true}}"#;
+        let mut described = Vec::new();
+        for (file, mime, settings, tag) in [
+            ("IMG_0003.jpg", "image/jpeg", None, "jpg.datahash"),
+            ("IMG_0003.jpg", "image/jpeg", Some(compress), "jpg.boxhash"),
+            ("libpng-test.png", "image/png", None, "png.datahash"),
+            ("libpng-test.png", "image/png", Some(compress), "png.boxhash"),
+        ] {
+            let Ok(bytes) = std::fs::read(fixture_path(file)) else { continue };
+            let signed = match sign(&bytes, mime, settings) {
+                Ok(s) => s,
+                Err(e) => {
+                    println!("VERIF-B-SAMPLE {tag}: signing failed: {e}");
+                    continue;
+                }
+            };
+            let (state, json) = match read(&signed, mime) {
+                Ok(x) => x,
+                Err(e) => {
+                    println!("VERIF-B-SAMPLE {tag}: reading the signed asset failed: {e}");
+                    continue;
+                }
+            };
+            if state == ValidationState::Invalid {
+                println!("VERIF-B-SAMPLE {tag}: freshly signed asset is Invalid - skipped");
+                continue;
+            }
+            let ex = exclusions(&json);
+            described.push(format!("{tag}: {} bytes, state {state:?}, signed exclusions {ex:?}, box hash {}", signed.len(), json.contains("c2pa.hash.boxes")));
+            if mime == "image/jpeg" {
+                jpeg_mutations(&mut run, tag, &signed, &ex);
+            } else {
+                png_mutations(&mut run, tag, &signed, &ex);
+            }
+        }
+        for d in &described {
+            println!("VERIF-B-SAMPLE {d}");
+        }
+        println!("VERIF-B-SAMPLE violation classes this run: {:?}", run.counts);
+        println!("VERIF-B unit=claim test=c01_tamper_signed_assets_end_to_end evaluations={} nontrivial={} exhaustive=true domain=assets signed by the SDK (IMG_0003.jpg, libpng-test.png; data hash and box hash) x mutations outside the signed exclusions: bit flips (first 64 bytes, a 60-point grid, container edges), appends and truncations of 1/16/37 bytes, a foreign and three C2PA-like segments / an ancillary chunk inserted at every structural boundary, every header segment deleted", run.evals, run.nontrivial);
+    }
+}
